@@ -101,7 +101,12 @@ def mass_params():
 _S_RB, _S_RATIO, _S_SPACING = _edge(*RB), _edge(*RATIO), _edge(*SPACING)
 _S_THICK, _S_LMIN, _S_STROKE = _edge(*THICK_FRAC), _edge(*LMIN_RADII), _edge(*STROKE)
 _S_HAND = st.sampled_from([1, -1])
-_S_SHAPE = st.sampled_from(["any", "any", "any", "any", "vertex", "vertex", "flat", "tall"])
+_S_SHAPE = st.sampled_from(["any", "any", "any", "any", "vertex", "vertex", "flat", "tall", "upright"])
+# "upright": the opposite corner from "flat" - legs as steep as the ranges allow (equal plates, joints spread widest on
+# both plates), thick plates, shortest legs with the shortest stroke: the plate-to-plate height (joint-plane distance
+# plus both thicknesses) is as large as it gets relative to the longest leg, and exceeds it for raised poses.
+_S_UP_RATIO, _S_UP_SPACING, _S_UP_THICK = _edge(0.9, 1.0), _edge(35.0, 40.0), _edge(0.08, 0.1)
+_S_UP_LMIN, _S_UP_STROKE = _edge(0.8, 0.85), _edge(1.5, 1.55)
 _S_ENDS = st.lists(st.integers(0, 1), min_size=7, max_size=7)
 # "flat": a small neighbourhood of the one corner of the box where the legs lie flattest (equal plates, tightest joint
 # pairs, shortest legs, shortest stroke, thin plates).  Only there is the neutral height below half the minimum leg.
@@ -145,6 +150,10 @@ def sp_specs(draw, routes=ROUTES, spin=True, base=True, masses=False):
         ratio, sb, stp = RATIO[e[0]], SPACING[e[1]], SPACING[e[2]]
         tb, tt = THICK_FRAC[e[3]] * rb, THICK_FRAC[e[4]] * rb * ratio
         kmin, stroke = LMIN_RADII[e[5]], STROKE[e[6]]
+    elif shape == "upright":
+        ratio, kmin, stroke = draw(_S_UP_RATIO), draw(_S_UP_LMIN), draw(_S_UP_STROKE)
+        sb, stp = draw(_S_UP_SPACING), draw(_S_UP_SPACING)
+        tb, tt = draw(_S_UP_THICK) * rb, draw(_S_UP_THICK) * rb * ratio
     elif shape == "tall":
         ratio, kmin, stroke = draw(_S_RATIO), draw(_S_TALL_LMIN), draw(_S_TALL_STROKE)
         tb, tt = draw(_S_THICK) * rb, draw(_S_THICK) * rb * ratio
@@ -180,7 +189,9 @@ def _box_coord(lim):
                      G.signed_log_uniform(1e-9, 1e-3).map(lambda v: max(-lim, min(lim, v))))
 
 
-_S_KIND = st.sampled_from(["generic", "generic", "generic", "translate", "rotate", "neutral", "corner"])
+_S_KIND = st.sampled_from(["generic", "generic", "generic", "translate", "rotate", "neutral", "corner", "raised", "lowered"])
+_S_HIGH = G.floats(0.6, 1.0)
+_S_SMALL = G.floats(-0.2, 0.2)
 _S_SIGNS = st.lists(st.sampled_from([-1.0, 1.0]), min_size=6, max_size=6)
 _S_LAT, _S_H, _S_ROT = _box_coord(BOX_LAT), _box_coord(BOX_H), _box_coord(BOX_ROT)
 
@@ -194,6 +205,12 @@ def _rel_u(draw):
     if kind == "corner":
         s = draw(_S_SIGNS)
         return np.array([s[0] * BOX_LAT, s[1] * BOX_LAT, s[2] * BOX_H, s[3] * BOX_ROT, s[4] * BOX_ROT, s[5] * BOX_ROT])
+    if kind in ("raised", "lowered"):
+        # the ends of the height range with little else going on (a fifth of the box sideways and in rotation): as high /
+        # as low as the platform is asked to go, where the longest / shortest leg comes closest to its limit
+        z = draw(_S_HIGH) * BOX_H * (1.0 if kind == "raised" else -1.0)
+        return np.array([draw(_S_SMALL) * BOX_LAT, draw(_S_SMALL) * BOX_LAT, z,
+                         draw(_S_SMALL) * BOX_ROT, draw(_S_SMALL) * BOX_ROT, draw(_S_SMALL) * BOX_ROT])
     u = np.array([draw(_S_LAT), draw(_S_LAT), draw(_S_H), draw(_S_ROT), draw(_S_ROT), draw(_S_ROT)])
     if kind == "translate":
         u[3:] = 0.0
